@@ -28,6 +28,13 @@ Proof.
     + rewrite IH. reflexivity.
 Qed.
 
+Lemma nth_error_upd_same {A} (l : list A) i f x :
+  nth_error l i = Some x -> nth_error (upd l i f) i = Some (f x).
+Proof. intros H. rewrite nth_error_upd, Nat.eqb_refl, H. reflexivity. Qed.
+
+Lemma nth_error_upd_other {A} (l : list A) i j f : j <> i -> nth_error (upd l i f) j = nth_error l j.
+Proof. intros H. rewrite nth_error_upd. destruct (Nat.eqb_spec j i); [contradiction|reflexivity]. Qed.
+
 Lemma length_upd {A} (l : list A) i f : length (upd l i f) = length l.
 Proof. revert i; induction l as [|x t IH]; intros [|i]; simpl; auto. Qed.
 
